@@ -14,6 +14,7 @@ import Proofs.TypePlan
 import Proofs.MarkTotal
 import Props.C01
 import Proofs.TypePlanFit
+import Props.C11
 namespace PM.C13
 open PM
 
@@ -1697,5 +1698,71 @@ example : keptState fxSchema 3 [] 0 = 0 ∧ (fxSchema.dfa 3).validEnd 0 = false 
   `node_at(pos)` finds there the node with children `rmKids` (same types as the old children, marks
   stripped) is known on the token level only (`clearIncompatibleF_spec`), on the tree level it needs
   the normal-form argument of `nodeAt_elem_of_window`. -/
+
+/-- **the step the filler request of `clear_incompatible` records is well-shaped** (discharges, for
+    `clearIncompatibleF_spec` / `clearIncompatibleF_steps`, the part of "a recorded Fitter step is
+    well-formed" that holds for every slice — Props/C11.lean `fit_emits_wf_partial`): its slice's
+    `open_start` is covered by its content, and if it is a replace-around step then
+    `insert ≤ slice.size` and range and gap are in order (`from ≤ gapFrom ≤ gapTo ≤ to`).  Still open
+    (C11 `fit_emits_wf`, end half): `open_end ≤ spineR` for a filler slice that contains non-leaf
+    fillers; for leaf fillers (`Slice.inlineLeaves`) it is `C11.insertInline_emits_wf`. -/
+theorem fillOutcome_step_shape (S : Schema) (pty : TypeId) (q : Nat) (d1 : Node) (cur : Nat) (fs : List Step)
+    (ho : FillOutcome S pty q d1 cur fs) (st : Step) (hst : st ∈ fs) :
+    (∃ sl', st.sliceOf = some sl' ∧ sl'.openStart ≤ spineL sl'.content) ∧
+    (∀ F T G1 G2 sl' ins b, st = .replaceAround F T G1 G2 sl' ins b →
+      (ins : Int) ≤ sl'.size ∧ F ≤ G1 ∧ G1 ≤ G2 ∧ G2 ≤ T) := by
+  cases ho with
+  | validEnd _ => simp at hst
+  | asked r _ hr =>
+    cases r with
+    | none => simp at hst
+    | some s0 =>
+      simp only [Option.toList_some, List.mem_singleton] at hst
+      subst hst
+      exact PM.C11.fit_emits_wf_partial S d1 cur cur _ st (Nat.le_refl _) (Nat.zero_le _) hr
+
+/-- **… and it is well-formed** (`StepWF`: both halves of `Slice.wf`, `insert ≤ slice.size`; a
+    replace-around answer has `aroundShape`) under the hypotheses of `C11.fit_emits_wf`: schema guards,
+    a valid intermediate document `d1` whose element nodes have creatable types, and the unplaced slice
+    staying well-formed over the Fitter's run on the filler request (`unplacedWfRun`, decidable; the
+    request slice itself, `⟨retypeFill …, 0, 0⟩`, is closed and therefore well-formed).  So the step
+    `clear_incompatible` records for its fillers can be handed to `Step.apply` without an internal
+    error (C01 `apply_no_internal`) and satisfies `AroundShape` of the C17 theorems. -/
+theorem fillOutcome_step_wf (S : Schema) (hdet : PM.C11.detB S = true) (hfill : S.fillersOKB = true)
+    (hwrap : S.wrapOKB = true) (hlab : S.labelsOKB = true) (pty : TypeId) (q : Nat) (d1 : Node) (cur : Nat)
+    (fs : List Step) (hv : C01.Valid S d1) (hattrs : S.nodeAttrsOK d1 = true)
+    (hrun : unplacedWfRun S d1 cur cur ⟨retypeFill S pty q, 0, 0⟩ = true)
+    (ho : FillOutcome S pty q d1 cur fs) (st : Step) (hst : st ∈ fs) :
+    StepWF st = true ∧
+    (∀ F T G1 G2 sl' ins b, st = .replaceAround F T G1 G2 sl' ins b → aroundShape F T G1 G2 sl' ins = true) := by
+  cases ho with
+  | validEnd _ => simp at hst
+  | asked r _ hr =>
+    cases r with
+    | none => simp at hst
+    | some s0 =>
+      simp only [Option.toList_some, List.mem_singleton] at hst
+      subst hst
+      exact PM.C11.fit_emits_wf S hdet hfill hwrap hlab d1 cur cur _ hv hattrs (by simp [Slice.wf]) (Nat.le_refl _)
+        hrun st hr
+
+/-- **the step the filler request records inserts no text**, whichever kind it is (for a replace-around
+    answer this was the open item of `clearIncompatibleF_spec`): the text of its slice is an in-order
+    subsequence of the text of the requested fillers (`replaceStep_text`: the Fitter never invents
+    text), and fillers carry none (`retypeFill_notext`) -/
+theorem fillOutcome_step_notext (S : Schema) (pty : TypeId) (q : Nat) (d1 : Node) (cur : Nat) (fs : List Step)
+    (ho : FillOutcome S pty q d1 cur fs) (st : Step) (hst : st ∈ fs) :
+    ∃ sl', st.sliceOf = some sl' ∧ textUnits sl'.toks = [] := by
+  cases ho with
+  | validEnd _ => simp at hst
+  | asked r _ hr =>
+    cases r with
+    | none => simp at hst
+    | some s0 =>
+      simp only [Option.toList_some, List.mem_singleton] at hst
+      subst hst
+      obtain ⟨sl2, hs2, hsub⟩ := replaceStep_text S d1 _ _ _ _ (Slice.wf_closed _) hr
+      rw [Slice.toks_closed, retypeFill_notext] at hsub
+      exact ⟨sl2, hs2, List.eq_nil_of_sublist_nil hsub⟩
 
 end PM.C13
